@@ -17,6 +17,8 @@ def run(ctx):
     ctx.pipe([hc, "smooth", "30" if ctx.tier == "quick" else "400", "13", "16"], "smcode", label="smoother-code-level")
     if ctx.tier == "thorough":
         ctx.pipe([h, "smooth", "20", "33", "64"], "smooth", label="smoother-sweeps-33x64")
+    # the parallel regions of these operators must be race-free, otherwise the result depends on the schedule
+    ctx.schedule_conflicts((" SmootherGive::", " SmootherTake::"))
     ctx.assumptions += ["spec-level model: the 5 000 lines of smoother C++ (assembly, right-hand sides, line solves) are tied to the sweep "
                         "equations by this correspondence only; the line solvers themselves are C14 / C16",
                         "energy monotonicity is proved in Dirichlet mode; across the origin it inherits the C05 gap"]
